@@ -201,6 +201,22 @@ pub fn run(tier: Tier) -> Report {
         }
     }
 
+    // ---- 2b. nested juxtaposition inside words: parses to the flattened tree
+    crate::fam::nested_words(&mut |g| {
+        let want = G {
+            stmts: g
+                .stmts
+                .iter()
+                .map(|s| match s {
+                    Stmt::Call { name, expr } => Stmt::Call { name: name.clone(), expr: crate::fam::normalize_words(expr, false) },
+                    Stmt::Def { name, shell, expr } => Stmt::Def { name: name.clone(), shell: shell.clone(), expr: crate::fam::normalize_words(expr, false) },
+                })
+                .collect(),
+        };
+        let text = render_canonical(&grammar_tokens(&g, DotStyle::Escaped));
+        expect(&mut acc, "nested-word", &want, &text, "nested juxtaposition inside a word");
+    });
+
     // ---- 3. literal strings ---------------------------------------------------------------
     let alpha = literal_alphabet();
     let maxlen = tier.pick(3, 3);
@@ -298,7 +314,7 @@ pub fn run(tier: Tier) -> Report {
     rep.cov(
         "rule",
         J::s(format!(
-            "exhaustive: (1) every tree with <= {k} nodes over leaves {{a, b., a \"d\", <X>, {{{{{{ c }}}}}}}}, operators seq | || [] ... word descr, arity 2..3, printed with minimal parentheses in two dot styles; every single separator deviation from {SEPS:?} at every token gap for trees <= {k_layout1} nodes, every pair for trees <= {k_layout2} nodes; (2) statement skeletons: call/plain/@shell definitions x =/::= x final ; x statement order; (3) every literal string of length <= {maxlen} over {} characters (every regular class representative + all 13 escapes) in 9 placements x 2 dot styles; (4) every description string up to length {} over {:?}. distinct = distinct input texts parsed; an evaluation is non-trivial when the text differs from every other text (hash of text).",
+            "exhaustive: (1) every tree with <= {k} nodes over leaves {{a, b., a \"d\", <X>, {{{{{{ c }}}}}}}}, operators seq | || [] ... word descr, arity 2..3, printed with minimal parentheses in two dot styles; every single separator deviation from {SEPS:?} at every token gap for trees <= {k_layout1} nodes, every pair for trees <= {k_layout2} nodes; (2b) nested juxtapositions inside words under every operator, directly and through definitions, must parse to the flattened tree; (2) statement skeletons: call/plain/@shell definitions x =/::= x final ; x statement order; (3) every literal string of length <= {maxlen} over {} characters (every regular class representative + all 13 escapes) in 9 placements x 2 dot styles; (4) every description string up to length {} over {:?}. distinct = distinct input texts parsed; an evaluation is non-trivial when the text differs from every other text (hash of text).",
             alpha.len(),
             tier.pick(3, 4),
             dalpha
